@@ -239,9 +239,12 @@ def c10(pid, tier, seed, t0):
 def c11(pid, tier, seed, t0):
     stages = [H("draws-checked", "c11", "checked", args={"quick": ["--scale", "2"], "thorough": ["--scale", "4"]}),
               H("draws-opt", "c11", "opt", group="c11-opt", args={"quick": ["--scale", "1"], "thorough": ["--scale", "2"]}),
-              H("draws-in-search", "c11s", "checked", group="c11s", args={"quick": [], "thorough": ["--cases", "400000"]})]
+              H("draws-in-search", "c11s", "checked", group="c11s", args={"quick": [], "thorough": ["--cases", "400000"]}),
+              P("repetition-binary", _pm2("c11_stage"))]
     return run_stages(pid, tier, seed, t0, "exploration", stages,
-                      required=("repetitions_observed", "repetition_of_oldest_position_in_window",
+                      required=("binary_repetition_first_of_tail_fen_clock_0", "binary_repetition_first_of_tail_after_capture",
+                                "binary_repetition_first_of_tail_after_pawn_move", "binary_repetition_later_in_tail",
+                                "repetitions_observed", "repetition_of_oldest_position_in_window",
                                 "clock_ge_100_observed", "terminal_at_clock_ge_100", "fen_start_with_nonzero_clock",
                                 "null_moves_in_history", "bare_kings", "king_and_minor",
                                 "three_men_with_pawn_rook_or_queen", "synth_more_than_two_minors",
@@ -331,7 +334,8 @@ def c08(pid, tier, seed, t0):
     return run_stages(pid, tier, seed, t0, "exploration", stages,
                       required=SEARCH_FEATURES + ("info_lines", "mate_for_root_side", "mate_against_root_side",
                                                   "mate_distance_3", "mate_distance_5", "searches_on_used_tables",
-                                                  "binary_info_lines", "binary_mate_announcements"),
+                                                  "binary_info_lines", "binary_mate_announcements",
+                                                  "binary_searches_reporting_lines_of_32_plies_or_more"),
                       assumptions=["oracle = refchess replay of every reported line"])
 
 
